@@ -111,19 +111,34 @@ package gnmi
 //@ spec isSubscribeMsg(r *gnmi.SubscribeRequest) bool = isType(r.Request, "*gnmi.SubscribeRequest_Subscribe") && asType(r.Request, "*gnmi.SubscribeRequest_Subscribe") != nil && asType(r.Request, "*gnmi.SubscribeRequest_Subscribe").Subscribe != nil
 //@ spec isPollMsg(r *gnmi.SubscribeRequest) bool = isType(r.Request, "*gnmi.SubscribeRequest_Poll") && asType(r.Request, "*gnmi.SubscribeRequest_Poll") != nil && asType(r.Request, "*gnmi.SubscribeRequest_Poll").Poll != nil
 // messages decoded from the wire: a set oneof carries a non-nil payload
-//@ spec wireValidSub(r *gnmi.SubscribeRequest) bool = r != nil && (isType(r.Request, "*gnmi.SubscribeRequest_Subscribe") ==> isSubscribeMsg(r)) && (isType(r.Request, "*gnmi.SubscribeRequest_Poll") ==> isPollMsg(r))
+// ... and its parts are objects that exist (heap references read from a decoded message are not dangling)
+//@ spec subMsgAllocated(r *gnmi.SubscribeRequest) bool = allocated(asType(r.Request, "*gnmi.SubscribeRequest_Subscribe")) && allocated(asType(r.Request, "*gnmi.SubscribeRequest_Subscribe").Subscribe) && allocated(asType(r.Request, "*gnmi.SubscribeRequest_Subscribe").Subscribe.Prefix) && allocated(asType(r.Request, "*gnmi.SubscribeRequest_Subscribe").Subscribe.Subscription) && (forall e in asType(r.Request, "*gnmi.SubscribeRequest_Subscribe").Subscribe.Subscription :: allocated(e) && (e != nil ==> allocated(e.Path)))
+//@ spec wireValidSub(r *gnmi.SubscribeRequest) bool = r != nil && (isType(r.Request, "*gnmi.SubscribeRequest_Subscribe") ==> isSubscribeMsg(r) && subMsgAllocated(r)) && (isType(r.Request, "*gnmi.SubscribeRequest_Poll") ==> isPollMsg(r))
 
 // every per-target request the split has built so far is a subscription message with its list allocated
 //@ spec treqsWF(m map[string]*gnmi.SubscribeRequest) bool = forall t string :: (t in m) ==> m[t] != nil && allocated(m[t]) && isSubscribeMsg(m[t])
-// (its body is swept for panics and its frame proved; the partition it computes is decided by the bounded check subscribe-split)
+// the target a subscription entry names by its own path ("" when it names none)
+//@ spec subTarget(e *gnmi.Subscription) string = ite(e == nil || e.Path == nil, "", e.Path.Target)
+//@ spec subList(r *gnmi.SubscribeRequest) *gnmi.SubscriptionList = asType(r.Request, "*gnmi.SubscribeRequest_Subscribe").Subscribe
+//@ spec prefixTargetOf(r *gnmi.SubscribeRequest) string = ite(subList(r).Prefix == nil, "", subList(r).Prefix.Target)
+// Proved for all requests: the request itself is left untouched, a prefix target gets the whole original request and
+// nothing else is built, without one every per-target request is a new message, a refusal happens only without a
+// prefix target. That each built list holds exactly the entries naming its target (a ∀∀ invariant over the lists
+// in the map) does not discharge; it is decided by the bounded check subscribe-split.
 //@ func splitSubscribeRequest(sctx, req) (err)
 //@   props C12, C19
 //@   safe
-//@   requires sctx != nil && req != nil && isSubscribeMsg(req)
-//@   modifies sctx.treqs
+//@   requires sctx != nil && req != nil && isSubscribeMsg(req) && subMsgAllocated(req)
+//@   modifies sctx.treqs, every("gnmi.SubscriptionList").Subscription
 //@   ensures sctx.treqs != nil && fresh(sctx.treqs)
 //@   ensures errWF(err)
-//@   loop 1 invariant sctx.treqs != nil && treqsWF(sctx.treqs)
+//@   ensures {C19} request-itself-untouched: arrOf(subList(req).Subscription) == old(arrOf(subList(req).Subscription)) && len(subList(req).Subscription) == old(len(subList(req).Subscription))
+//@   ensures {C19} prefix-target-gets-the-whole-request: prefixTargetOf(req) != "" ==> err == nil && (forall t string :: (t in sctx.treqs) <==> t == prefixTargetOf(req)) && sctx.treqs[prefixTargetOf(req)] == req
+//@   ensures {C19} split-requests-are-new-messages: prefixTargetOf(req) == "" ==> (forall t string :: (t in sctx.treqs) ==> sctx.treqs[t] != req && fresh(sctx.treqs[t]) && fresh(subList(sctx.treqs[t])))
+//@   ensures {C19} refused-only-without-prefix-target: err != nil ==> prefixTargetOf(req) == ""
+//@   loop 1 invariant sctx.treqs != nil && treqsWF(sctx.treqs) && prefixTargetOf(req) == ""
+//@   loop 1 invariant !fresh(subList(req)) && arrOf(subList(req).Subscription) == old(arrOf(subList(req).Subscription)) && len(subList(req).Subscription) == old(len(subList(req).Subscription))
+//@   loop 1 invariant forall t string :: (t in sctx.treqs) ==> sctx.treqs[t] != req && fresh(sctx.treqs[t]) && fresh(subList(sctx.treqs[t]))
 
 //@ func (*Server).processSubscribeRequest(s, ctx, sctx, req) (err)
 //@   props C19, C12
@@ -131,7 +146,7 @@ package gnmi
 //@   requires serverWF(s) && sctx != nil && sctx.stream != nil && wireValidSub(req)
 // the ledger of target lookups is ghost state: C19 reads it from an empty ledger; the Subscribe loop (C12) cannot and need not reset it
 //@   requires {C19} empty-lookup-ledger: forall t string :: !targetLookups[t]
-//@   modifies sctx.req, sctx.treqs, targetLookups, targetLookupCount, sbSubscribeCalls, pollCalls
+//@   modifies sctx.req, sctx.treqs, targetLookups, targetLookupCount, sbSubscribeCalls, pollCalls, every("gnmi.SubscriptionList").Subscription
 //@   ensures {C19} duplicate-subscription-refused: isSubscribeMsg(req) && old(sctx.req) != nil ==> err != nil && sctx.req == old(sctx.req) && sctx.treqs == old(sctx.treqs) && targetLookupCount == old(targetLookupCount) && sbSubscribeCalls == old(sbSubscribeCalls) && pollCalls == old(pollCalls)
 //@   ensures {C19} poll-before-subscribe-refused: !isSubscribeMsg(req) && isPollMsg(req) && old(sctx.req) == nil ==> err != nil && targetLookupCount == old(targetLookupCount) && pollCalls == old(pollCalls)
 //@   ensures {C19} unknown-message-refused: !isSubscribeMsg(req) && !isPollMsg(req) ==> err != nil && targetLookupCount == old(targetLookupCount) && sbSubscribeCalls == old(sbSubscribeCalls) && pollCalls == old(pollCalls)
